@@ -101,6 +101,9 @@ def die(how):
         import resource
         resource.setrlimit(resource.RLIMIT_CORE, (0, 0))
         os.kill(os.getpid(), signal.SIGSEGV)
+    if how == 'rtsig':
+        # a real-time signal: it has no name in signal.Signals
+        os.kill(os.getpid(), signal.SIGRTMIN + 6)
     if how == 'sysexit0':
         sys.exit(0)
     if how == 'sysexit3':
